@@ -24,7 +24,10 @@ for profile in extract.PROFILES:
         e['hash'][profile] = normalize.fingerprint(f)
 for n in dups:
     fns[n]['hash'] = {}
-out = {'reference_commit': head, 'skeleton_version': normalize.skeleton_version(), 'count': len(fns), 'fns': {k: fns[k] for k in sorted(fns)}}
+adts = {}
+for a in prog.adts.values():
+    adts[a['name']] = {'crate': a['crate'], 'exported': bool(a.get('exported')), 'shape': normalize._adt_shape(a)}
+out = {'adts': {k: adts[k] for k in sorted(adts)}, 'reference_commit': head, 'skeleton_version': normalize.skeleton_version(), 'count': len(fns), 'fns': {k: fns[k] for k in sorted(fns)}}
 with open(normalize.TABLE, 'w') as fh:
     json.dump(out, fh, indent=0, sort_keys=True)
     fh.write('\n')
